@@ -16,6 +16,7 @@ git -C /repo worktree add -q --detach "$W/repo" HEAD || exit 2
 ( cd "$HERE" && tar cf - --exclude=sim/target --exclude=refclass/target --exclude=.git --exclude=replays --exclude=seeded --exclude=benign --exclude=evidence . ) | ( cd "$W/verif" && tar xf - )
 sed -i "s#\"/repo/#\"$W/repo/#g" "$W/verif/sim/Cargo.toml" "$W/verif/sim/src/main.rs" "$W/verif/sim/src/engine.rs" "$W/verif/sim/src/c01.rs" "$W/verif/sim/src/c16.rs"
 for d in "$@"; do
+  d=$(cd "$d" && pwd)
   id=$(basename "$d")
   if ! git -C "$W/repo" apply "$d/patch.diff" 2>/dev/null; then echo "$id PATCH-DOES-NOT-APPLY"; continue; fi
   for prop in $PROPS; do
